@@ -27,7 +27,7 @@ def run(ctx, report):
         report.guard("C03.SET", P.barrier, ctx, report, "C03.SET", facts, config, ("set",))
         report.guard("C03.FWD", P.barrier, ctx, report, "C03.FWD", facts, config, ("fwd",))
         report.guard("C03.RANGE", P.barrier, ctx, report, "C03.RANGE", facts, config, ("range",))
-        report.guard("C03.RANGE", P.accept, ctx, report, "C03.RANGE", facts, config, ("chain", "accept"))
+        report.guard("C03.RANGE", P.accept, ctx, report, "C03.RANGE", facts, config, ("chain", "accept-sound"))
         report.guard("C03.RANGE", S.slot, ctx, report, "C03.RANGE", facts, config)
         report.guard("C03.EXEC", F.check_family, ctx, report, "C03.EXEC", facts, config, (F.RUN,), lambda i: i in EXEC_IDS)
         report.guard("C03.TL", c12.order, ctx, report, facts, config, "C03.TL")
